@@ -913,7 +913,7 @@ def m_array(I, ctx, callee, args, crate):
     return VecV([I.call_value(ctx, args[1], [x]) for x in v.items])
 
 
-@M.on(r"^(std|core)::iter::(from_fn|once|once_with|empty|repeat|repeat_n|successors|zip)$")
+@M.on(r"^((std|core)::iter::)?(from_fn|once|once_with|empty|repeat|repeat_n|successors|zip)$")
 def m_iter_sources(I, ctx, callee, args, crate):
     meth = strip_generics(callee).split("::")[-1]
     if meth == "from_fn":
